@@ -1,2 +1,132 @@
-(* C09 - placeholder while the proofs are in progress *)
+(* C09 - SWHID parsing accepts exactly the documented language and fails only
+   cleanly.  Property theorems only: each is closed by `exact` of a lemma of
+   proofs/Swhid*Proofs.v, with Print Assumptions beneath it.
+
+   parse_core / parse_ext / parse_q model CoreSWHID / ExtendedSWHID /
+   QualifiedSWHID.from_string (coq/model/Swhid.v); their result type is
+   Ok value | Err e with e in {ValidationError, ValueError, TypeError,
+   AssertionError}: every stdlib call that can raise (int(), bytes.fromhex,
+   str.encode, the enum converters, tuple unpacking, the ** call) is given its
+   raising condition in the model.  lang_core / lang_ext / lang_q are the
+   recogniser written from the property statement and the BNF.  [lim] is the
+   interpreter's int<->str digit limit (0 = none). *)
+From Coq Require Import List NArith ZArith.
+From SWH.lib Require Import Bytes Dec Hex Utf8 Percent.
+From SWH Require Import Generated.
 From SWH.model Require Import Swhid.
+From SWH.proofs Require Import SwhidTables SwhidLib PercentProofs SwhidProofs SwhidParseProofs SwhidLinesProofs
+  SwhidQProofs SwhidLangProofs SwhidProps.
+Import ListNotations.
+Open Scope N_scope.
+
+(* For every string and each class, parsing returns a value or fails with the
+   library's ValidationError - no other error is reachable. *)
+Theorem C09_total : forall (lim : N) (s : text),
+  ((exists c, parse_core s = Ok c) \/ parse_core s = Err EValidation) /\
+  ((exists c, parse_ext s = Ok c) \/ parse_ext s = Err EValidation) /\
+  ((exists v, parse_q lim s = Ok v) \/ parse_q lim s = Err EValidation).
+Proof. exact P_C09_total. Qed.
+Print Assumptions C09_total.
+
+(* Nothing outside the documented language is ever accepted (no hypothesis). *)
+Theorem C09_accepts_sound : forall (lim : N) (s : text),
+  ((exists c, parse_core s = Ok c) -> lang_core s = true) /\
+  ((exists c, parse_ext s = Ok c) -> lang_ext s = true) /\
+  ((exists v, parse_q lim s = Ok v) -> lang_q s = true).
+Proof. exact P_C09_accepts_sound. Qed.
+Print Assumptions C09_accepts_sound.
+
+(* A string is accepted exactly when it is in the documented language.  For
+   the qualified class the equivalence carries the interpreter limit: no run
+   of more than lim consecutive digits in the string (within_limit); without
+   it see C09_long_number_refuted. *)
+Theorem C09_accepts_iff : forall (lim : N) (s : text),
+  ((exists c, parse_core s = Ok c) <-> lang_core s = true) /\
+  ((exists c, parse_ext s = Ok c) <-> lang_ext s = true) /\
+  (within_limit lim s = true -> ((exists v, parse_q lim s = Ok v) <-> lang_q s = true)).
+Proof. exact P_C09_accepts_iff. Qed.
+Print Assumptions C09_accepts_iff.
+
+(* An accepted string re-prints (no exception) to a string that parses to an
+   equal value. *)
+Theorem C09_reprint : forall (lim : N) (s : text) (v : qualified), parse_q lim s = Ok v ->
+  exists s', print_q lim v = Ok s' /\ parse_q lim s' = Ok v.
+Proof. exact reprint. Qed.
+Print Assumptions C09_reprint.
+
+(* On a qualifier-free string (no ';') QualifiedSWHID does exactly what
+   CoreSWHID does (same value with no qualifiers, or both fail); Extended
+   agrees with Core whenever the type is a core type. *)
+Theorem C09_classes_agree : forall (lim : N) (s : text),
+  (~ In 59 s ->
+   parse_q lim s = match parse_core s with
+                   | Ok c => Ok (mkQ (c_ty c) (c_oid c) None None None None None)
+                   | Err e => Err e
+                   end) /\
+  (forall c, parse_core s = Ok c -> parse_ext s = Ok c) /\
+  (forall c, parse_ext s = Ok c -> In (c_ty c) SWHID_TYPES -> parse_core s = Ok c).
+Proof. exact P_C09_classes_agree. Qed.
+Print Assumptions C09_classes_agree.
+
+(* KNOWN FINDING int-max-str-digits: with the limit at 3 digits, `;lines=1000`
+   is in the language, is not within_limit, and is rejected; with the limit
+   at 4 it is accepted.  Real interpreter: 4300 / a 4301-digit number. *)
+Theorem C09_long_number_refuted :
+  lang_q (zero_id ++ bs ";lines=1000") = true /\ parse_q 3 (zero_id ++ bs ";lines=1000") = Err EValidation /\
+  within_limit 3 (zero_id ++ bs ";lines=1000") = false /\
+  exists v, parse_q 4 (zero_id ++ bs ";lines=1000") = Ok v.
+Proof. exact long_number_refuted. Qed.
+Print Assumptions C09_long_number_refuted.
+
+(* The code before commit 31ea1eb (int() on the raw text, kept as the mutant
+   parse_q_old): `;lines=+1` is outside the language and was accepted. *)
+Theorem C09_lines_over_acceptance_refuted_old :
+  lang_q (zero_id ++ bs ";lines=+1") = false /\
+  (exists v, parse_q_old 4300 (zero_id ++ bs ";lines=+1") = Ok v /\ q_lines v = Some (1%Z, None)) /\
+  parse_q 4300 (zero_id ++ bs ";lines=+1") = Err EValidation.
+Proof. exact lines_over_acceptance_refuted_old. Qed.
+Print Assumptions C09_lines_over_acceptance_refuted_old.
+
+(* The code before commit 9a0ba15 (no whitespace escaping, kept as the mutant
+   print_q_old): `;origin=a%20b` is accepted, its value re-printed to
+   `;origin=a b`, which is rejected. *)
+Theorem C09_reprint_refuted_old :
+  exists v, parse_q 4300 (zero_id ++ bs ";origin=a%20b") = Ok v /\ q_origin v = Some (bs "a b") /\
+            print_q_old 4300 v = Ok (zero_id ++ bs ";origin=a b") /\
+            parse_q 4300 (zero_id ++ bs ";origin=a b") = Err EValidation /\
+            print_q 4300 v = Ok (zero_id ++ bs ";origin=a%20b").
+Proof. exact reprint_refuted_old. Qed.
+Print Assumptions C09_reprint_refuted_old.
+
+(* Interpretation made visible: a lone surrogate in the path is rejected
+   (cleanly) and lang_q excludes it; in the origin it is accepted. *)
+Theorem C09_surrogate_path_rejected :
+  parse_q 4300 (zero_id ++ bs ";path=" ++ [55296]) = Err EValidation /\
+  lang_q (zero_id ++ bs ";path=" ++ [55296]) = false /\
+  exists v, parse_q 4300 (zero_id ++ bs ";origin=" ++ [55296]) = Ok v.
+Proof. exact surrogate_path_rejected. Qed.
+Print Assumptions C09_surrogate_path_rejected.
+
+(* Side conditions on the tables read from /repo (incl.: every accepted
+   qualifier key is a keyword argument of the constructor - no TypeError). *)
+Theorem C09_tables :
+  re_head = S_swh1 /\ EXTENDED_SWHID_TYPES = DOC_EXT_TYPES /\
+  same_set_b (enum_values OBJECT_TYPES) DOC_CORE_TYPES = true /\
+  same_set_b (enum_values EXTENDED_OBJECT_TYPES) DOC_EXT_TYPES = true /\
+  TY_SNAPSHOT = S_snp /\ ANCHOR_TYPES = DOC_ANCHOR_TYPES /\
+  same_set_b SWHID_QUALIFIERS DOC_KEYS = true /\ FIELD_KEYS = DOC_KEYS /\
+  subset_b SWHID_QUALIFIERS (map field_name FIELDS_QualifiedSWHID) = true /\
+  SWHID_SEP = [58] /\ SWHID_CTXT_SEP = [59].
+Proof. exact P_C09_tables. Qed.
+Print Assumptions C09_tables.
+
+(* Non-vacuity: a sentence with all five qualifiers is within the limit, in
+   the language and accepted; duplicates with a malformed first value are in
+   the language; ori is extended-only. *)
+Theorem C09_satisfiable :
+  within_limit 4300 ex_q_text = true /\ lang_q ex_q_text = true /\ parse_q 4300 ex_q_text = Ok ex_q /\
+  lang_q (zero_id ++ bs ";lines=x;lines=3") = true /\
+  lang_core zero_id = true /\ lang_ext (S_swh1 ++ S_ori ++ S_colon ++ zero_hex) = true /\
+  lang_core (S_swh1 ++ S_ori ++ S_colon ++ zero_hex) = false.
+Proof. exact c09_satisfiable. Qed.
+Print Assumptions C09_satisfiable.
